@@ -24,6 +24,7 @@ EXPLANATION = (
     ' Also decided: StorageData.digest feeds keys and values through one hash state in sequence (no combination of separately hashed parts); Path.append records the transitively closed dependency set; targetSelector/excludeSelector entries accumulate per contract.'
     " Round 4: a probe is marked reported only under a solver model (R15.10); every filter set of the invariant context is exactly its getter's result."
     ' Round 5: the reserved-function predicate is evaluated on sample signatures whatever its form; FunctionInfo identity covers every field; invariant-testing filters keep a state unless the solver says unsat (C02 R02.1).'
+    ' Round 7: a frontier state carries its constraints into the next depth through Path.extend_path - conditions, dependency index and sliced view stay consistent (C11 R11.2).'
 )
 ASSUMPTIONS = ["z3 term ids and Python object ids are stable while the objects are retained (retention is what R15.3 checks)"]
 
